@@ -10,7 +10,10 @@ Shape description (plain JSON):
          | {"k": "prop", "expose": bool, "g": fn|None, "s": fn|None, "d": fn|None}
          | {"k": "attr", "v": val}
   fn     = {"name": str, "fid": int, "expose": bool, "oneway": bool}
-  val    = {"v": "data"} | {"v": "inst"|"cls", "expose": bool, "call": bool, "callId": int, "initId": int}
+  val    = {"v": "data"} | {"v": "inst"|"cls", "expose": bool, "call": bool, "callId": int, "initId": int} | {"v": "fn", "f": fn}
+History event (after the first block of requests; the metadata cache is filled before and never reset):
+  {"t": "is", "k": key, "v": val} | {"t": "id", "k": key} | {"t": "ts", "ci": class#, "k": key, "m": member} | {"t": "td", "ci": class#, "k": key}
+  | {"t": "q", "req": request}
 Request:
   {"batch": bool, "oneway": bool, "method": name, "args": [name, ...]}
   name   = str | {"ns": <tag>}   (non-string value, see NONSTR)
@@ -22,6 +25,7 @@ import common
 
 NONSTR = {
     "int": 7, "none": None, "float": 1.5, "bool": True, "tuple": ("m",),           # hashable, no .startswith
+    "false": False, "zero": 0,                                                     # falsy extras for argument lists
     "list": ["m"], "dict": {"m": 1}, "set": {"m"}, "bytes": b"m",                  # arrive unhashable under serpent (bytes -> dict)
 }
 
@@ -103,6 +107,8 @@ class Real:
     def _val(self, v):
         if v["v"] == "data":
             return 42
+        if v["v"] == "fn":
+            return self._fn(v["f"], "static")      # a plain function object stored as a value: called without self
         log = self.log
         ns = {}
         init_id, call_id = v["initId"], v["callId"]
@@ -145,6 +151,7 @@ class Real:
         self.drop()
         try:
             cls = None
+            classes = []
             for i, c in reversed(list(enumerate(shape["classes"]))):
                 ns = {}
                 for key, m in c["members"]:
@@ -152,6 +159,7 @@ class Real:
                 cls = type("Target%d" % i, (cls,) if cls else (), ns)
                 if c["expose"]:
                     cls = self.server.expose(cls)
+                classes.insert(0, cls)
             if cls is None:
                 cls = type("Target", (), {})
             obj = cls()
@@ -161,9 +169,32 @@ class Real:
             del self.log[:]
             return "priv" if str(x).startswith("exposing private names") else "attr"
         del self.log[:]
-        self.cls, self.obj = cls, obj
+        self.cls, self.obj, self.classes = cls, obj, classes
         self.daemon.register(obj, "c02target")
         return None
+
+    def step(self, ev):
+        """a run-time change of the registered object / its classes (no metadata cache reset): 'step' | 'steperr:<kind>'"""
+        try:
+            t = ev["t"]
+            if t == "is":
+                self.obj.__dict__[ev["k"]] = self._val(ev["v"])
+            elif t == "id":
+                self.obj.__dict__.pop(ev["k"], None)
+            elif t == "ts":
+                if ev["ci"] < len(self.classes):
+                    member = self._member(ev["m"])
+                    setattr(self.classes[ev["ci"]], ev["k"], member)
+            elif t == "td":
+                if ev["ci"] < len(self.classes) and ev["k"] in vars(self.classes[ev["ci"]]):
+                    delattr(self.classes[ev["ci"]], ev["k"])
+            else:
+                raise ValueError(t)
+        except AttributeError as x:
+            return "steperr:priv" if str(x).startswith("exposing private names") else "steperr:attr"
+        finally:
+            del self.log[:]
+        return "step"
 
     def drop(self):
         if self.obj is not None:
